@@ -28,6 +28,7 @@ var (
 	ErrCacheResponseFailed  = errors.New("error caching response")
 	ErrTLSCertFailed        = errors.New("error getting TLS certificate")
 	ErrClientResponseFailed = errors.New("failed to write HTTP OK response to client")
+	ErrResponseIncomplete   = errors.New("response could not be written completely")
 	ErrReadRequestFailed    = errors.New("error reading request from client")
 	ErrRangeNotSatisfiable  = errors.New("range not satisfiable")
 	ErrIfRangeMismatch      = errors.New("If-Range header mismatch")
@@ -124,7 +125,7 @@ func finalizeAndRespond(r responder.Responder, resp io.Reader, status int, req *
 	written, err := r.Write(status, body)
 	if err != nil {
 		slog.Error("Error writing response", "url", req.URL, "error", err)
-		return err
+		return fmt.Errorf("%w: %w", ErrResponseIncomplete, err)
 	}
 
 	metrics.Global.Requests.BytesServed.Add(written)
@@ -363,6 +364,13 @@ func (p *Proxy) handleCONNECT(r responder.Responder, proxyReq *http.Request) err
 		exchangeResponder := responder.NewRawHTTPResponderFor(tlsConn, req)
 		if err := p.handleHTTP(exchangeResponder, req); err != nil {
 			slog.Error("Error processing HTTP request in CONNECT tunnel", "host", proxyReq.Host, "error", err)
+			if errors.Is(err, ErrResponseIncomplete) {
+				// Part of a response is on the wire and the rest will never follow (the origin broke off, or the
+				// client cannot be written to): the client can only learn that from the connection ending, as on a
+				// plain proxied connection. Anything sent after it would be read as the missing part.
+				req.Body.Close()
+				break
+			}
 		}
 		// The body is part of this exchange. A request answered from the cache is never sent upstream,
 		// so nobody has read it: closing it discards what is left, instead of leaving it in the tunnel's
